@@ -79,7 +79,7 @@ def generate(ctx, jobs):
 
 
 TRACE_CFGS = {"u2_cur": "LdiffTrace_u2_cur.cfg", "u2_leg": "LdiffTrace_u2_leg.cfg", "u3_cur": "LdiffTrace_u3_cur.cfg",
-              "u3_leg": "LdiffTrace_u3_leg.cfg", "u4_cur": "LdiffTrace_u4_cur.cfg"}
+              "u3_leg": "LdiffTrace_u3_leg.cfg", "u4_cur": "LdiffTrace_u4_cur.cfg", "u4_leg": "LdiffTrace_u4_leg.cfg"}
 
 
 def record_and_validate(ctx, tuples, files, prop_invariant, runs, env=None, expect_reject=False):
